@@ -9,8 +9,9 @@ Traces == JsonDeserialize(IOEnv.TRACE_FILE)
 NT == Len(Traces)
 VARIABLES t, l,
           mix,        \* ids of plain mixin classes of the current run
+          tainted,    \* keys of classes one of whose descendants overrode a parameter by a bare value (whole trace)
           degraded    \* a known deviation happened in this run: only Frame is decided until reset
-tvars == <<vars, t, l, mix, degraded>>
+tvars == <<vars, t, l, mix, tainted, degraded>>
 ASSUME \A i \in 1 .. NT : TLCSet(i, 1) /\ TLCSet(NT + i, 0)
 
 Ev == Traces[t][l]
@@ -77,29 +78,55 @@ DevOK(e) ==
 (* on that mixin now gets a description that depends on what was defined before it.          *)
 DevLawOK(e, v) == /\ e.ev = "defclass" /\ v \in {"Functional", "OrderIndependent"}
                   /\ Anc(NewDefs(e), e.x) \cap mix # {}
+(* ---- second known deviation: Parameter.clone (bare value override -> create_from_value)   *)
+(* applies the inherited datatype properties to the ORIGINAL datatype object of the ancestor *)
+(* that defined it before copying it: afterwards new subclasses of that ancestor inherit the *)
+(* override.  Admissible only for a class one of whose ancestors has (had, in an earlier run *)
+(* of this trace) a descendant with a bare-value override.                                   *)
+DevCloneOK(e, v) == /\ e.ev = "defclass" /\ v \in {"Functional", "OrderIndependent"}
+                    /\ \E a \in Anc(NewDefs(e), e.x) : CKey(NewDefs(e), a) \in tainted
+(* ... the polluted original becomes visible in a BASE class when a later subclass re-merges it *)
+DevCloneFrameOK(e) ==
+  /\ e.ev = "defclass" /\ e.dev /\ Guard(e)
+  /\ LET d2 == NewDefs(e)
+         nd == D(e)
+         x == e.x
+         V == {y \in Live : nd[y] # desc[y]}
+     IN /\ DOMAIN nd = Live \cup {x}
+        /\ V # {} /\ V \subseteq Classes
+        /\ \A y \in V : (Anc(d2, y) \cup {y}) \cap Anc(d2, x) # {}
+        /\ \E a \in Anc(d2, x) : CKey(d2, a) \in tainted
+        /\ BadOf(e) \ {x} = bad \ {x}
+Taint(e) == IF e.ev = "defclass" /\ e.bare
+            THEN tainted \cup {CKey(NewDefs(e), a) : a \in Anc(NewDefs(e), e.x)} ELSE tainted
 DevStep(e) == /\ defs' = NewDefs(e) /\ insts' = insts /\ desc' = D(e) /\ bad' = BadOf(e)
               /\ UNCHANGED law
               /\ degraded' = TRUE
-              /\ TLCSet(NT + t, IF TLCGet(NT + t) = 0 THEN l ELSE TLCGet(NT + t))
+DevNote(kind) == TLCSet(NT + t, IF TLCGet(NT + t) = 0 THEN 10 * l + kind ELSE TLCGet(NT + t))
 
-TInit == Init /\ t \in 1 .. NT /\ l = 1 /\ mix = {} /\ degraded = FALSE
+TInit == Init /\ t \in 1 .. NT /\ l = 1 /\ mix = {} /\ tainted = {} /\ degraded = FALSE
 
 TStep ==
   /\ l <= Len(Traces[t]) /\ t' = t
   /\ LET e == Ev IN
      IF e.ev = "reset"
-     THEN Reset /\ mix' = {} /\ degraded' = FALSE /\ l' = l + 1
+     THEN Reset /\ mix' = {} /\ degraded' = FALSE /\ l' = l + 1 /\ UNCHANGED tainted
      ELSE IF DevOK(e)
-     THEN DevStep(e) /\ l' = l + 1 /\ mix' = (IF e.mixin THEN mix \cup {e.x} ELSE mix)
+     THEN DevStep(e) /\ DevNote(1) /\ l' = l + 1 /\ mix' = (IF e.mixin THEN mix \cup {e.x} ELSE mix) /\ tainted' = Taint(e)
+     ELSE IF DevCloneFrameOK(e)
+     THEN DevStep(e) /\ DevNote(2) /\ l' = l + 1 /\ mix' = (IF e.mixin THEN mix \cup {e.x} ELSE mix) /\ tainted' = Taint(e)
      ELSE LET v == Viol(e) IN
           IF DevLawOK(e, v)
-          THEN DevStep(e) /\ l' = l + 1 /\ mix' = mix
+          THEN DevStep(e) /\ DevNote(1) /\ l' = l + 1 /\ mix' = mix /\ tainted' = Taint(e)
+          ELSE IF DevCloneOK(e, v)
+          THEN DevStep(e) /\ DevNote(2) /\ l' = l + 1 /\ mix' = mix /\ tainted' = Taint(e)
           ELSE IF v # ""
           THEN /\ PrintT(<<"REJECT", t, l, v>>)
                /\ l' = Len(Traces[t]) + 2            \* dead: no ACCEPT for this trace
-               /\ UNCHANGED <<vars, mix, degraded>>
+               /\ UNCHANGED <<vars, mix, tainted, degraded>>
           ELSE /\ Apply(e) /\ l' = l + 1
                /\ mix' = (IF e.ev = "defclass" /\ e.mixin THEN mix \cup {e.x} ELSE mix)
+               /\ tainted' = Taint(e)
                /\ UNCHANGED degraded
 
 TSpec == TInit /\ [][TStep]_tvars
@@ -111,6 +138,7 @@ Track == TLCSet(t, IF l > TLCGet(t) THEN l ELSE TLCGet(t))
 Verdicts == \A i \in 1 .. NT :
    IF TLCGet(i) = Len(Traces[i]) + 1
    THEN IF TLCGet(NT + i) = 0 THEN PrintT(<<"ACCEPT", i>>)
-        ELSE PrintT(<<"REJECT", i, TLCGet(NT + i), "DEV:Dev_MergeInPlace">>)
+        ELSE PrintT(<<"REJECT", i, TLCGet(NT + i) \div 10,
+                      IF TLCGet(NT + i) % 10 = 1 THEN "DEV:Dev_MergeInPlace" ELSE "DEV:Dev_CloneInPlace">>)
    ELSE PrintT(<<"REJECT", i, TLCGet(i), "event not explained by ClassModel">>)
 =============================================================================
